@@ -174,10 +174,18 @@ Definition gstep_fn (g : gstate) (st : gstep) : gstate :=
   | SCrashPublished c => set_ms g (snd (orphan_put (ms g) c))
   | SCrashBeforeCommit c => set_junk g (g_junk g ++ [(JTmp, c)])
   | SCrashAfterCommit i h o =>
-      let s' := fst (step i h (ms g) o) in
+      let '(s', r) := step i h (ms g) o in
       let gone := filter (fun e => match store_get (store s') (fst e) with None => true | Some _ => false end)
                          (store (ms g)) in
-      set_junk (set_ms g s') (g_junk g ++ map (fun e => (JBackup, snd e)) gone)
+      (* a put whose fresh part was deduplicated away deletes that fresh part inside the same transaction:
+         its backup file stays as well (modelled for PutObject, the operation the crash cases use) *)
+      let fresh_bak := match o, r with
+                       | _, RErr _ => []
+                       | OPut _ _ c _, _ =>
+                           if n_pre (fst (put_fresh_part (with_ids (ms g) i) c)) then [(JBackup, c)] else []
+                       | _, _ => []
+                       end in
+      set_junk (set_ms g s') (g_junk g ++ fresh_bak ++ map (fun e => (JBackup, snd e)) gone)
   end.
 
 Definition run_trace (g : gstate) (tr : list gstep) : gstate := fold_left gstep_fn tr g.
@@ -207,12 +215,15 @@ Definition gc_run (young : list N) (g : gstate) : gstate :=
      ddel:<c>           delete the dedup entry of content c
      tmp:<c>            crash leftover ".<id>.<rnd>.tmp"
      bak:<c>            crash leftover "<id>.txbackup.<ulid>"
+     gcq                a GC run that prints nothing about the state
+     crash:tmp:<b>:<k>:<c>:-   a PutObject whose process dies after PutPart wrote the temp file
+     crash:bak:<b>:<k>:<c>:-   a PutObject whose process dies after the commit, before the after-commit hooks
    The state is printed by [gc] (and [dump]) with part ids replaced by the content they store. *)
 Definition pids_with_content (s : mstate) (c : bytes) : list N :=
   map fst (filter (fun e => bytes_eqb (snd e) c) (store s)).
 
 Inductive gtok :=
-  | TOp (o : op) | TGc | TSweep | TDump
+  | TOp (o : op) | TGc | TGcQuiet | TSweep | TDump | TCrashTmp (c : bytes) | TCrashBak (o : op)
   | TOrphan (c : bytes) | TRegZero (c : bytes) | TODedup (c : bytes)
   | TRegSet (c : bytes) (n : N) | TRegDel (c : bytes) | TDDel (c : bytes)
   | TTmp (c : bytes) | TBak (c : bytes).
@@ -244,7 +255,10 @@ Definition gtok_run (i : N) (hist : list res) (g : gstate) (t : gtok) : gstate *
   match t with
   | TOp o => let '(s', r) := step i hist s o in (set_ms g s', r :: hist, show_res r)
   | TGc => let g' := gc_run [] g in (g', ROk :: hist, B"gc:" ++ show_state g')
+  | TGcQuiet => (gc_run [] g, ROk :: hist, B"gcq")
   | TDump => (g, ROk :: hist, B"st:" ++ show_state g)
+  | TCrashTmp c => (gstep_fn g (SCrashBeforeCommit c), ROk :: hist, B"crashed")
+  | TCrashBak o => (gstep_fn g (SCrashAfterCommit i hist o), ROk :: hist, B"crashed")
   | TSweep => let '(ok, bad) := sweep s in (g, ROk :: hist, colon [B"sweep"; show_N ok; show_N bad])
   | TOrphan c => let '(_, s') := orphan_put s c in (set_ms g s', ROk :: hist, B"ok")
   | TRegZero c => let '(pid, s') := orphan_put s c in
@@ -267,7 +281,12 @@ Definition gtok_run (i : N) (hist : list res) (g : gstate) (t : gtok) : gstate *
 
 Definition parse_gtok (t : bytes) : option gtok :=
   if bytes_eqb t B"gc" then Some TGc
+  else if bytes_eqb t B"gcq" then Some TGcQuiet
   else if bytes_eqb t B"sweep" then Some TSweep
+  else if is_prefix B"crash:tmp:" t then
+    match parse_op (B"put:" ++ skipn 10 t) with Some (OPut _ _ c _) => Some (TCrashTmp c) | _ => None end
+  else if is_prefix B"crash:bak:" t then
+    match parse_op (B"put:" ++ skipn 10 t) with Some (OPut b k c cr) => Some (TCrashBak (OPut b k c cr)) | _ => None end
   else if bytes_eqb t B"dump" then Some TDump
   else match split_on ":"%byte t with
        | [c; x] =>
